@@ -342,8 +342,8 @@ def c01(ctx):
         # the IR as cl/ssa emit it, and the IR after the C-ABI transformation build.Do applies to every module by default
         C.TVJob('corpus', gen_corpus(ctx, 'C01', 'tvc01'), 'tvc01', chunks=8, unwind=8, deadline_s=120 if ctx.quick else 600, prefix='C01.'),
         C.TVJob('corpus-cabi', gen_corpus(ctx, 'C01', 'tvc01'), 'tvc01', chunks=8, unwind=8, deadline_s=120 if ctx.quick else 600, prefix='C01.cabi.', extra=['--abi', '2']),
-        # random functions from a statement grammar (48 quick, 400 thorough; VERIF_SEED selects the sample)
-        C.TVJob('generated', gen_py(ctx, 'C01'), 'tvc01gen', chunks=16, unwind=8, deadline_s=30 if ctx.quick else 180, timeout_ms=4000 if ctx.quick else 20000, prefix='C01.gen.'),
+        # random functions from a statement grammar (48 quick, 200 thorough; VERIF_SEED selects the sample)
+        C.TVJob('generated', gen_py(ctx, 'C01'), 'tvc01gen', chunks=16, unwind=8, deadline_s=30 if ctx.quick else 90, timeout_ms=4000 if ctx.quick else 10000, prefix='C01.gen.'),
     ]
 
 
